@@ -138,11 +138,13 @@ type prTarget struct {
 	sigs   map[uint32]string
 	mu     sync.Mutex
 	events map[uint32][]string
+	others []map[uint32][]string // what the subscribers on the other connections have received
 }
 
 type prWorld struct {
 	srv     bus.Server
 	sess    bus.Session
+	more    []bus.Session // two more clients, on connections of their own, subscribed to the same properties
 	targets map[string]*prTarget
 }
 
@@ -172,6 +174,9 @@ func prReset() string {
 	log.SetOutput(ioutil.Discard)
 	if prw != nil {
 		prw.sess.Terminate()
+		for _, m := range prw.more {
+			m.Terminate()
+		}
 		prw.srv.Terminate()
 	}
 	addr := util.NewUnixAddr()
@@ -219,6 +224,13 @@ func prReset() string {
 		return "setup-error:" + err.Error()
 	}
 	w.sess = sess
+	for i := 0; i < 2; i++ {
+		m, err := session.NewSession(addr)
+		if err != nil {
+			return "setup-error:" + err.Error()
+		}
+		w.more = append(w.more, m)
+	}
 	time.Sleep(20 * time.Millisecond)
 	mk := func(name string, ids []uint32, sigs map[uint32]string, update func(uint32, int64) error) string {
 		proxy, err := sess.Proxy(name, 1)
@@ -238,6 +250,27 @@ func prReset() string {
 					t.mu.Unlock()
 				}
 			}(id, ch)
+		}
+		for _, m := range w.more {
+			mp, err := m.Proxy(name, 1)
+			if err != nil {
+				return "setup-error:" + err.Error()
+			}
+			got := map[uint32][]string{}
+			t.others = append(t.others, got)
+			for _, id := range ids {
+				_, ch, err := mp.SubscribeID(id)
+				if err != nil {
+					return "setup-error:subscribe:" + err.Error()
+				}
+				go func(id uint32, ch chan []byte) {
+					for p := range ch {
+						t.mu.Lock()
+						got[id] = append(got[id], fmt.Sprintf("%s:%d", sigs[id], prDecodeBytes(sigs[id], p)))
+						t.mu.Unlock()
+					}
+				}(id, ch)
+			}
 		}
 		w.targets[strings.ToLower(name)] = t
 		return "ok"
@@ -273,6 +306,11 @@ func (t *prTarget) eventsStr() string {
 		for _, e := range t.events {
 			n += len(e)
 		}
+		for _, o := range t.others {
+			for _, e := range o {
+				n += len(e)
+			}
+		}
 		t.mu.Unlock()
 		if n == last && i > 3 {
 			break
@@ -285,6 +323,14 @@ func (t *prTarget) eventsStr() string {
 	parts := make([]string, len(t.ids))
 	for i, id := range t.ids {
 		parts[i] = fmt.Sprintf("%d=[%s]", id, strings.Join(t.events[id], ","))
+	}
+	// every subscriber, whatever its connection, has received the same events
+	for k, o := range t.others {
+		for _, id := range t.ids {
+			if strings.Join(o[id], ",") != strings.Join(t.events[id], ",") {
+				parts = append(parts, fmt.Sprintf("subscriber-on-connection-%d:%d=[%s]", k+2, id, strings.Join(o[id], ",")))
+			}
+		}
 	}
 	return strings.Join(parts, " ")
 }
